@@ -536,6 +536,11 @@ func (e *Env) ghostField(xv Val, name string) (Val, error) {
 		g := &e.x.cs.Ghosts[i]
 		if g.Name == name {
 			gt, err := e.x.prog.LookupType(g.Owner, e.pkg)
+			if pk, ok := e.x.prog.ByPath[g.Pkg]; ok {
+				if gt2, err2 := e.x.prog.LookupType(g.Owner, pk.Types); err2 == nil {
+					gt, err = gt2, nil
+				}
+			}
 			if err == nil && types.Identical(types.Unalias(gt), owner) {
 				gf = g
 				break
@@ -573,7 +578,14 @@ func (e *Env) ghostField(xv Val, name string) (Val, error) {
 		cn := ghostFieldComp(owner, name, "")
 		return Val{T: nil, S: []Term{Select(u.comp(e.st, cn, ArrSort(SInt, so)), xv.One())}, GT: vt, GK: kt}, nil
 	}
-	gt, err := e.x.prog.LookupType(gf.Type, e.pkg)
+	declPkg := e.pkg
+	if pk, ok := e.x.prog.ByPath[gf.Pkg]; ok {
+		declPkg = pk.Types
+	}
+	gt, err := e.x.prog.LookupType(gf.Type, declPkg)
+	if err != nil {
+		gt, err = e.x.prog.LookupType(gf.Type, e.pkg)
+	}
 	if err != nil {
 		return Val{}, fmt.Errorf("ghost field $%s: %v", name, err)
 	}
